@@ -277,16 +277,28 @@ def cbcheck_bounded(seed, n_it):
             M[6 * i + 3:6 * i + 6, 6 * i + 3:6 * i + 6] = Ii
         K = np.zeros((N, N))
         pairs = [(i, i + 1) for i in range(nn - 1)] + [(0, nn - 1), (1, nn - 2)]
+        drilling = bool(it % 7 == 6)
+        if drilling:
+            # the drilling DOF (RZ) of boundary grid 0 is not connected: no inertia about z there and every element attached to that grid measures its deformation
+            # AT the grid and carries TX, TY, TZ, RX, RY only (the documented rb_norm use case); rigid-body motion still produces no force
+            M[5, :] = 0.0; M[:, 5] = 0.0; M[3:5, 5] = 0.0
+            M[3, 4] = M[4, 3] = 0.0
+            pairs += [(0, 2)]
         for i, j in pairs:
             A_ = rng.randn(6, 6)
             Kd = A_ @ A_.T + 6 * np.eye(6)
             Kd *= 1e3
             G = np.zeros((6, N))
-            G[:, 6 * i:6 * i + 6] = -Trig(xyz[j] - xyz[i])
-            G[:, 6 * j:6 * j + 6] = np.eye(6)
+            if drilling and i == 0:
+                G[:, 0:6] = -np.eye(6)
+                G[:, 6 * j:6 * j + 6] = Trig(xyz[0] - xyz[j])
+                G, Kd = G[:5], Kd[:5, :5]
+            else:
+                G[:, 6 * i:6 * i + 6] = -Trig(xyz[j] - xyz[i])
+                G[:, 6 * j:6 * j + 6] = np.eye(6)
             K += G.T @ Kd @ G
         bn = [0, nn - 1]                                  # two boundary nodes -> indeterminate interface
-        massless = bool(it % 5 == 4)
+        massless = bool(it % 5 == 4) and not drilling
         if massless:
             # a third, MASSLESS boundary grid tied by a stiff spring to boundary grid 0 only: massless DOF with stiffness in the reduced model
             xyz = np.vstack((xyz, xyz[0] + rng.randn(3)))
@@ -315,21 +327,26 @@ def cbcheck_bounded(seed, n_it):
         T[np.ix_(o, len(b) + np.arange(nq))] = phin
         Mcb, Kcb = T.T @ M @ T, T.T @ K @ T
         nb = len(b)
-        blast = bool(it % 3 == 1)
+        blast = bool(it % 3 == 1) and not drilling
         if blast:
             perm = np.hstack((np.arange(nb, nb + nq), np.arange(nb)))
             Mcb, Kcb = Mcb[np.ix_(perm, perm)], Kcb[np.ix_(perm, perm)]
             bseto = np.arange(nq, nq + nb)
         else:
             bseto = np.arange(nb)
-        swapped = bool(it % 4 == 3) and not massless
-        noreorder = bool(it % 6 == 5) or (massless and it % 2 == 0)          # cbcheck(reorder=False): the b-set stays where it is
+        swapped = bool(it % 4 == 3) and not massless and not drilling
+        noreorder = (bool(it % 6 == 5) or (massless and it % 2 == 0)) and not drilling and not swapped          # cbcheck(reorder=False): the b-set stays where it is
         if swapped:
             # the two boundary grids listed in swapped order in `bseto` (the USET table stays in ascending DOF order)
             bseto = np.hstack((bseto[6:], bseto[:6]))
         refnode = [0, 1][(it // 2) % 2]
         lo = min(bseto)
         bref = np.arange(lo + 6 * refnode, lo + 6 * refnode + 6)
+        if drilling:
+            # exact zeros for the unconnected DOF, reference DOF spread over two grids (grid 0 TX..RY + one translation of grid 1 that can react RZ)
+            Kcb[5, :] = 0.0; Kcb[:, 5] = 0.0
+            refnode = 0
+            bref = np.array([0, 1, 2, 3, 4, 6 + int(np.argmax(abs(np.cross([0, 0, 1.0], xyz[bn[1]] - xyz[bn[0]]))))])
         uset = None
         for k_, i in enumerate(bn):
             uset = n2p.addgrid(uset, 10 * (k_ + 1), "b", 0, xyz[i], 0)
@@ -338,7 +355,7 @@ def cbcheck_bounded(seed, n_it):
         with warnings.catch_warnings():
             warnings.simplefilter("ignore")
             try:
-                out = cb.cbcheck(fobj, Mcb, Kcb, bseto, bref, uset, uref=xyz[bn[refnode]], conv=conv, **(dict(reorder=False) if noreorder else {}))
+                out = cb.cbcheck(fobj, Mcb, Kcb, bseto, bref, uset, uref=xyz[bn[refnode]], conv=conv, **(dict(reorder=False) if noreorder else {}), **(dict(rb_norm=True) if drilling else {}))
             except Exception as ex:
                 tb = traceback.extract_tb(ex.__traceback__)
                 return ev, dict(what="cbcheck raises on a valid free Craig-Bampton model: %r at %s:%s" % (ex, tb[-1].filename, tb[-1].lineno), b_last=blast, ref_node=refnode, conv=str(conv), massless_boundary_grid=massless, reorder=not noreorder)
@@ -354,10 +371,11 @@ def cbcheck_bounded(seed, n_it):
         S6 = np.diag([1, 1, 1, lc, lc, lc])
         M6c = mc * S6 @ M6 @ S6
         prob = None
+        keep_rows = np.array([r_ for r_ in range(rbg_want.shape[0]) if not (drilling and r_ == 5)])        # the unconnected drilling DOF carries no information
         tolg = 1e-6 * max(1.0, abs(rbg_want).max())
         if out.rbg.shape != rbg_want.shape or abs(out.rbg - rbg_want).max() > tolg:
             prob = "geometry-based rigid-body modes are not the rigid motion of the boundary grids about the reference point"
-        elif abs(out.rbs[out.bset] - rbg_want).max() > 1e-5 * max(1.0, abs(rbg_want).max()) or abs(out.rbe[out.bset] - rbg_want).max() > 1e-4 * max(1.0, abs(rbg_want).max()):
+        elif abs((out.rbs[out.bset] - rbg_want)[keep_rows]).max() > 1e-5 * max(1.0, abs(rbg_want).max()) or abs((out.rbe[out.bset] - rbg_want)[keep_rows]).max() > 1e-4 * max(1.0, abs(rbg_want).max()):
             prob = "stiffness-/eigenvalue-based rigid-body modes differ from the geometry-based ones on the boundary"
         else:
             ms = out.rbs.T @ out.m @ out.rbs
@@ -385,7 +403,7 @@ def cbcheck_bounded(seed, n_it):
                     if prob is None and not np.allclose(np.sort(out.cb_frq), np.sort(frq_want), rtol=1e-6):
                         prob = "fixed-base frequencies changed (unit conversion / reordering must leave them unchanged)"
         if prob:
-            return ev, dict(what="cbcheck: " + prob, nodes=int(nn), b_last=blast, ref_node=refnode, conv=str(conv), kept_modes=int(nq), massless_boundary_grid=massless, reorder=not noreorder)
+            return ev, dict(what="cbcheck: " + prob, nodes=int(nn), b_last=blast, ref_node=refnode, conv=str(conv), kept_modes=int(nq), massless_boundary_grid=massless, reorder=not noreorder, unconnected_drilling_dof=drilling)
     return ev, None
 
 
